@@ -192,6 +192,22 @@ pub fn bounds() -> Vec<Ill> {
     );
     out.push(Ill { kind: "bound-violation", what: what.to_string(), modules: vec![("Main".into(), text)], target: "Main".into() });
   }
+  // the violating type argument is WRITTEN in another module (a return / field / parameter annotation
+  // of a library that is fine by itself) and only inferred at the offending call in Main
+  let lib = "interface Showable { method show(): Str }\nclass Plain(val v: int) {}\nclass Wrap<T>(val t: T) {\n  function ofPlain(): Wrap<Plain> = Wrap.init(Plain.init(1))\n}\nclass Keep(val w: Wrap<Plain>) {\n  function make(): Keep = Keep.init(Wrap.ofPlain())\n}\nclass Util {\n  function <T: Showable> showW(w: Wrap<T>): Str = w.t.show()\n  function <T: Showable> showF(f: () -> Wrap<T>): Str = f().t.show()\n  function <A, B: Showable> showP(a: A, w: Wrap<B>): Str = w.t.show()\n}\n";
+  for (what, stmt) in [
+    ("nested type argument inferred from a return annotation of another module", "let _ = Util.showW(Wrap.ofPlain());"),
+    ("nested type argument inferred from a field annotation of another module", "let _ = Util.showW(Keep.make().w);"),
+    ("nested type argument inferred through a function value of another module", "let _ = Util.showF(Wrap.ofPlain);"),
+    ("second type parameter, nested type argument from another module", "let _ = Util.showP(1, Wrap.ofPlain());"),
+  ] {
+    out.push(Ill {
+      kind: "bound-violation",
+      what: what.to_string(),
+      modules: vec![("Lib".into(), lib.to_string()), ("Main".into(), format!("import {{ Wrap, Keep, Util }} from Lib\nclass Main {{\n  function main(): unit = {{\n    {stmt}\n  }}\n}}\n"))],
+      target: "Main".into(),
+    });
+  }
   // ill-formed bound *declarations*, at every place a type parameter can be declared; nothing uses
   // the declaration, so only the validation of the declaration itself can reject the program
   let faults: [(&str, &str); 4] = [
